@@ -34,6 +34,10 @@ func doReplay(path string) int {
 			Family    int        `json:"family"`
 			Client    string     `json:"client_location"`
 			MaxAnswer int        `json:"max_answer"`
+			First     creq       `json:"first"`
+			Then      creq       `json:"then"`
+			Combo     int        `json:"combo"`
+			Step      int        `json:"step"`
 		} `json:"replay"`
 	}
 	if err := json.Unmarshal(b, &f); err != nil {
@@ -51,6 +55,16 @@ func doReplay(path string) int {
 		o := serve(w, slot{f.Replay.Section, f.Replay.Family}, f.Replay.Client, f.Replay.MaxAnswer, f.Replay.Draws, nil)
 		fmt.Printf("set %s draws %v: want %d address(es), served %v, rcode %s, violated clauses %v\n%s\n", setKey(f.Replay.Set), f.Replay.Draws, o.Want, o.Addrs, o.Rcode, o.Kinds, o.canon())
 		bad = o.has(f.Replay.Kind)
+	case "e2e-cache":
+		w := getWorld(f.Replay.Set, backendOf(f.Replay.Backend))
+		obs := cacheSeq(w, f.Replay.First, f.Replay.Then, f.Replay.Combo, nil)
+		for step, o := range obs {
+			q := []creq{f.Replay.First, f.Replay.Then, f.Replay.First}[step]
+			fmt.Printf("%s request %s: want %d address(es), served %v, rcode %s, key draws taken %d, violated clauses %v\n%s\n", stepName[step], q, o.Want, o.Addrs, o.Rcode, o.Taken, o.Kinds, o.canon())
+		}
+		if f.Replay.Step >= 0 && f.Replay.Step < 3 {
+			bad = obs[f.Replay.Step].has(f.Replay.Kind)
+		}
 	case "prop":
 		br := bracketOf(f.Replay.Weights, f.Replay.Candidate, f.Replay.LogN, realSelect)
 		v := br.verdict(f.Replay.Weights, f.Replay.Candidate)
